@@ -354,30 +354,29 @@ func collRun(in collInput) (*collResult, error) {
 	fresh := map[int]bool{}   // traces that left a buffer during the current op
 	lastDec := make([]int, res.NTr)
 	decisions := func() ([]int, []int) {
+		// a drop decision reaches the cuckoo filter through a queue drained by a goroutine every
+		// 100µs: wait until every worker's queue is empty so that CheckTrace is stable
+		for t0 := time.Now(); time.Since(t0) < 3*time.Second; {
+			pending := 0
+			for w := 0; w < nw; w++ {
+				pending += coll.VerifC01DropQueueLen(w)
+			}
+			if pending == 0 {
+				break
+			}
+			time.Sleep(50 * time.Microsecond)
+		}
 		out := make([]int, res.NTr)
 		var forgot []int
 		for t := 0; t < res.NTr; t++ {
-			id := fmt.Sprintf("t%d", t)
-			get := func() int {
-				k, found := coll.VerifC01CheckTrace(res.Owner[t], id)
-				if !found {
-					return 0
-				}
-				if k {
-					return 1
-				}
-				return 2
+			k, found := coll.VerifC01CheckTrace(res.Owner[t], fmt.Sprintf("t%d", t))
+			v := 0
+			if found && k {
+				v = 1
+			} else if found {
+				v = 2
 			}
-			v := get()
-			if v == 0 && fresh[t] {
-				// a drop decision reaches the cuckoo filter through a queue drained by a
-				// goroutine every 100µs: wait (bounded) for the stable answer
-				for t0 := time.Now(); v == 0 && time.Since(t0) < 40*time.Millisecond; {
-					time.Sleep(100 * time.Microsecond)
-					v = get()
-				}
-			}
-			if v == 0 && lastDec[t] != 0 {
+			if v == 0 && (lastDec[t] != 0 || fresh[t]) {
 				forgot = append(forgot, t)
 			}
 			out[t] = v
@@ -725,8 +724,8 @@ func collCoq(r *collResult) string {
 	if in.Flush {
 		flush = 1
 	}
-	return fmt.Sprintf("{| k_workers := %s; k_dry := %s; k_cfg := %s; k_tables := %s; k_ntr := %s; k_flush := %s; k_items := %s |}",
-		cq.N(uint64(nw)), cq.Bool(in.Dry), collCfgCoq(in.Cfg, len(in.Tables)), collTablesCoq(in.Tables),
+	return fmt.Sprintf("{| k_workers := %s; k_dry := %s; k_kept := %s; k_cfg := %s; k_tables := %s; k_ntr := %s; k_flush := %s; k_items := %s |}",
+		cq.N(uint64(nw)), cq.Bool(in.Dry), cq.N(uint64(collKept(in))), collCfgCoq(in.Cfg, len(in.Tables)), collTablesCoq(in.Tables),
 		cq.N(uint64(r.NTr)), cq.N(uint64(flush)), cq.List(items))
 }
 
@@ -798,7 +797,7 @@ func collHeapNow() uint64 {
 	return s[0].Value.Uint64()
 }
 
-const collEmptyCase = "{| k_workers := 1%N; k_dry := false; k_cfg := {| c_ver := 0%N; c_tt := 0%Z; c_sd := 0%Z; c_sl := 0%Z; c_me := 0%Z |}; k_tables := [[]]; k_ntr := 0%N; k_flush := 0%N; k_items := [] |}"
+const collEmptyCase = "{| k_workers := 1%N; k_dry := false; k_kept := 10000%N; k_cfg := {| c_ver := 0%N; c_tt := 0%Z; c_sd := 0%Z; c_sl := 0%Z; c_me := 0%Z |}; k_tables := [[]]; k_ntr := 0%N; k_flush := 0%N; k_items := [] |}"
 
 func collTags(r *collResult) []string {
 	tags := []string{fmt.Sprintf("workers:%d", len(r.Obs[0].Bufs))}
@@ -836,4 +835,11 @@ func collSummary(r *collResult) any {
 		h = append(h, fmt.Sprintf("%s@%d w%d left=%v fwd=%d", o.Kind, o.Now-r.In.T0, o.W, o.Left, len(o.Fwd)))
 	}
 	return map[string]any{"workers": r.In.Workers, "dry": r.In.Dry, "cfg": r.In.Cfg, "history": h, "stop_err": r.StopErr}
+}
+
+func collKept(in collInput) uint {
+	if in.KeptSize == 0 {
+		return 10000
+	}
+	return in.KeptSize
 }
